@@ -132,7 +132,8 @@ def run(prog, rep):
         cl_ok = False
         for c in prog.closures_of(f):
             cr = canon(Tracer(c.body).local(0))
-            if re.search(r"Option::flatten\(Option::map\(Option::as_ref\(&\*+upvar:(_ref__)?self\.context\)", cr):
+            if re.search(r"Option::flatten\(Option::map\(Option::as_ref\(&\*+upvar:(_ref__)?self\.context\)", cr) or \
+                    re.search(r"Option::and_then\(Option::as_ref\(&\*+upvar:(_ref__)?self\.context\)", cr):      # map(f).flatten() = and_then(f)
                 cl_ok = True
         rep.check(ok and cl_ok, "C17.get", "%s::get" % ty.rsplit("::", 1)[-1], f.loc(), "values.get(name).or_else(|| context?.get(name))", "lookup is not `own map, else context`: %s" % r[:200])
     # the trait impl used by nested sets must be the full lookup (own map + context)
